@@ -137,9 +137,17 @@ func runC13Emit(c *Case, out func(string)) {
 		out("IMPL-ERROR " + err.Error())
 		return
 	}
-	o := &c13Oracle{}
+	start := parseNum(hdrVal(c.Hdr, "start", "1"))
+	if start == 0 {
+		start = 1
+	}
+	// a replica that asks for `start` owns everything below it
+	o := &c13Oracle{start: start - 1, cur: start - 1}
 	for _, e := range got {
 		o.L = append(o.L, c13FromWal(e))
+		if e.SequenceNumber < start {
+			o.n++
+		}
 	}
 	pcfg := replication.DefaultPrimaryConfig()
 	pcfg.CompressionCodec = rpb.CompressionCodec_NONE
@@ -149,7 +157,6 @@ func runC13Emit(c *Case, out func(string)) {
 		out("IMPL-ERROR " + err.Error())
 		return
 	}
-	start := parseNum(hdrVal(c.Hdr, "start", "1"))
 	ctx, cancel := context.WithCancel(context.Background())
 	fs := &c13Stream{ctx: ctx, ch: make(chan *rpb.WALStreamResponse, 256)}
 	done := make(chan struct{})
@@ -157,7 +164,7 @@ func runC13Emit(c *Case, out func(string)) {
 		p.StreamWAL(&rpb.WALStreamRequest{StartSequence: start, ProtocolVersion: 1, ListenerAddress: "c13:1"}, fs)
 		close(done)
 	}()
-	ap := replication.NewWALBatchApplier(0)
+	ap := replication.NewWALBatchApplier(start - 1)
 	lastSeq := uint64(0)
 	if len(o.L) > 0 {
 		lastSeq = o.L[len(o.L)-1].seq
@@ -189,6 +196,9 @@ func runC13Emit(c *Case, out func(string)) {
 					p.Acknowledge(actx, &rpb.Ack{AcknowledgedUpTo: ret})
 				}
 				c13JudgeApplied(o, fmt.Sprintf("delivery %d (%d entries from %d)", deliveries, len(r.Entries), r.Entries[0].SequenceNumber), app, ap.GetMaxApplied(), true)
+				if ap.GetMaxApplied() >= lastSeq {
+					return // everything is acknowledged: the primary has nothing more to send
+				}
 			case <-time.After(120 * time.Millisecond):
 				idle++
 				if ap.GetMaxApplied() < lastSeq && idle < 6 {
